@@ -82,9 +82,10 @@ fn client_model(state: &'static str, s: Sym, peer_knows_cookie: bool) -> &'stati
     }
 }
 
-fn server_sweep(ctx: &EnumCtx, depth: usize, peer_knows_cookie: bool, from_alive: bool) -> EnumResult {
+fn server_sweep(ctx: &EnumCtx, depth: usize, peer_knows_cookie: bool, from_alive: bool, cookies: (&'static str, &'static str)) -> EnumResult {
+    let (real, wrong) = cookies;
     let mut res = EnumResult::default();
-    let peer_cookie = if peer_knows_cookie { COOKIE } else { "another-cookie" };
+    let peer_cookie = if peer_knows_cookie { real } else { wrong };
     let total = ALL.len().pow(depth as u32);
     let mut states = std::collections::BTreeSet::new();
     for code in 0..total {
@@ -105,10 +106,10 @@ fn server_sweep(ctx: &EnumCtx, depth: usize, peer_knows_cookie: bool, from_alive
         let mut was_closed = false;
         for (i, s) in seq.iter().enumerate() {
             let next = match s {
-                Sym::StartChallenge => fsm.start_challenge(COOKIE),
-                Sym::Name => fsm.next(msg(a::authentication_message::Msg::Name(name())), COOKIE),
-                Sym::ClientStatusTrue => fsm.next(msg(a::authentication_message::Msg::ClientStatus(a::ClientStatus { status: true })), COOKIE),
-                Sym::ClientStatusFalse => fsm.next(msg(a::authentication_message::Msg::ClientStatus(a::ClientStatus { status: false })), COOKIE),
+                Sym::StartChallenge => fsm.start_challenge(real),
+                Sym::Name => fsm.next(msg(a::authentication_message::Msg::Name(name())), real),
+                Sym::ClientStatusTrue => fsm.next(msg(a::authentication_message::Msg::ClientStatus(a::ClientStatus { status: true })), real),
+                Sym::ClientStatusFalse => fsm.next(msg(a::authentication_message::Msg::ClientStatus(a::ClientStatus { status: false })), real),
                 Sym::ClientChallengeRight | Sym::ClientChallengeWrong | Sym::ClientChallengeEmpty | Sym::ClientChallengeTrunc | Sym::ClientChallengeLong => {
                     let right = challenge_digest(peer_cookie, fsm.challenge().map(|c| c.0).unwrap_or(1));
                     let digest = match (s, fsm.challenge()) {
@@ -119,11 +120,11 @@ fn server_sweep(ctx: &EnumCtx, depth: usize, peer_knows_cookie: bool, from_alive
                         (Sym::ClientChallengeLong, _) => right.iter().copied().chain([0u8]).collect(),
                         _ => vec![],
                     };
-                    fsm.next(msg(a::authentication_message::Msg::ClientChallenge(a::ChallengeReply { challenge: 99, digest })), COOKIE)
+                    fsm.next(msg(a::authentication_message::Msg::ClientChallenge(a::ChallengeReply { challenge: 99, digest })), real)
                 }
-                Sym::ServerStatusOk => fsm.next(msg(a::authentication_message::Msg::ServerStatus(a::ServerStatus { status: 0 })), COOKIE),
-                Sym::ServerStatusAlive => fsm.next(msg(a::authentication_message::Msg::ServerStatus(a::ServerStatus { status: 4 })), COOKIE),
-                Sym::ServerChallenge => fsm.next(msg(a::authentication_message::Msg::ServerChallenge(a::Challenge { name: "x".into(), flags: None, challenge: 5, connection_string: "c".into() })), COOKIE),
+                Sym::ServerStatusOk => fsm.next(msg(a::authentication_message::Msg::ServerStatus(a::ServerStatus { status: 0 })), real),
+                Sym::ServerStatusAlive => fsm.next(msg(a::authentication_message::Msg::ServerStatus(a::ServerStatus { status: 4 })), real),
+                Sym::ServerChallenge => fsm.next(msg(a::authentication_message::Msg::ServerChallenge(a::Challenge { name: "x".into(), flags: None, challenge: 5, connection_string: "c".into() })), real),
                 Sym::ServerAckRight | Sym::ServerAckWrong | Sym::ServerAckEmpty | Sym::ServerAckTrunc | Sym::ServerAckLong => {
                     let digest = match s {
                         Sym::ServerAckEmpty => vec![],
@@ -131,9 +132,9 @@ fn server_sweep(ctx: &EnumCtx, depth: usize, peer_knows_cookie: bool, from_alive
                         Sym::ServerAckLong => vec![2; 33],
                         _ => vec![2; 32],
                     };
-                    fsm.next(msg(a::authentication_message::Msg::ServerAck(a::ChallengeAck { digest })), COOKIE)
+                    fsm.next(msg(a::authentication_message::Msg::ServerAck(a::ChallengeAck { digest })), real)
                 }
-                Sym::Empty => fsm.next(a::AuthenticationMessage { msg: None }, COOKIE),
+                Sym::Empty => fsm.next(a::AuthenticationMessage { msg: None }, real),
             };
             model = server_model(model, *s, peer_knows_cookie);
             res.transitions += 1;
@@ -152,7 +153,7 @@ fn server_sweep(ctx: &EnumCtx, depth: usize, peer_knows_cookie: bool, from_alive
             }
             if next.is_ok() {
                 // the digest acknowledged to the client proves knowledge of the cookie for ITS challenge
-                if next.ok_digest() != Some(challenge_digest(COOKIE, 99)) {
+                if next.ok_digest() != Some(challenge_digest(real, 99)) {
                     res.violations.push(("the acknowledgement digest is not the digest of the client's challenge".into(), json!({})));
                 }
                 if !peer_knows_cookie {
@@ -174,9 +175,10 @@ fn server_sweep(ctx: &EnumCtx, depth: usize, peer_knows_cookie: bool, from_alive
     res
 }
 
-fn client_sweep(ctx: &EnumCtx, depth: usize, peer_knows_cookie: bool) -> EnumResult {
+fn client_sweep(ctx: &EnumCtx, depth: usize, peer_knows_cookie: bool, cookies: (&'static str, &'static str)) -> EnumResult {
+    let (real, wrong) = cookies;
     let mut res = EnumResult::default();
-    let peer_cookie = if peer_knows_cookie { COOKIE } else { "another-cookie" };
+    let peer_cookie = if peer_knows_cookie { real } else { wrong };
     let total = ALL.len().pow(depth as u32);
     let mut states = std::collections::BTreeSet::new();
     for code in 0..total {
@@ -197,10 +199,10 @@ fn client_sweep(ctx: &EnumCtx, depth: usize, peer_knows_cookie: bool) -> EnumRes
         let mut was_closed = false;
         for (i, s) in seq.iter().enumerate() {
             let next = match s {
-                Sym::StartChallenge | Sym::Empty => fsm.next(a::AuthenticationMessage { msg: None }, COOKIE),
-                Sym::Name => fsm.next(msg(a::authentication_message::Msg::Name(name())), COOKIE),
-                Sym::ClientStatusTrue => fsm.next(msg(a::authentication_message::Msg::ClientStatus(a::ClientStatus { status: true })), COOKIE),
-                Sym::ClientStatusFalse => fsm.next(msg(a::authentication_message::Msg::ClientStatus(a::ClientStatus { status: false })), COOKIE),
+                Sym::StartChallenge | Sym::Empty => fsm.next(a::AuthenticationMessage { msg: None }, real),
+                Sym::Name => fsm.next(msg(a::authentication_message::Msg::Name(name())), real),
+                Sym::ClientStatusTrue => fsm.next(msg(a::authentication_message::Msg::ClientStatus(a::ClientStatus { status: true })), real),
+                Sym::ClientStatusFalse => fsm.next(msg(a::authentication_message::Msg::ClientStatus(a::ClientStatus { status: false })), real),
                 Sym::ClientChallengeRight | Sym::ClientChallengeWrong | Sym::ClientChallengeEmpty | Sym::ClientChallengeTrunc | Sym::ClientChallengeLong => {
                     let digest = match s {
                         Sym::ClientChallengeEmpty => vec![],
@@ -208,11 +210,11 @@ fn client_sweep(ctx: &EnumCtx, depth: usize, peer_knows_cookie: bool) -> EnumRes
                         Sym::ClientChallengeLong => vec![3; 33],
                         _ => vec![3; 32],
                     };
-                    fsm.next(msg(a::authentication_message::Msg::ClientChallenge(a::ChallengeReply { challenge: 1, digest })), COOKIE)
+                    fsm.next(msg(a::authentication_message::Msg::ClientChallenge(a::ChallengeReply { challenge: 1, digest })), real)
                 }
-                Sym::ServerStatusOk => fsm.next(msg(a::authentication_message::Msg::ServerStatus(a::ServerStatus { status: 0 })), COOKIE),
-                Sym::ServerStatusAlive => fsm.next(msg(a::authentication_message::Msg::ServerStatus(a::ServerStatus { status: 4 })), COOKIE),
-                Sym::ServerChallenge => fsm.next(msg(a::authentication_message::Msg::ServerChallenge(a::Challenge { name: "srv@host".into(), flags: None, challenge: 5, connection_string: "c".into() })), COOKIE),
+                Sym::ServerStatusOk => fsm.next(msg(a::authentication_message::Msg::ServerStatus(a::ServerStatus { status: 0 })), real),
+                Sym::ServerStatusAlive => fsm.next(msg(a::authentication_message::Msg::ServerStatus(a::ServerStatus { status: 4 })), real),
+                Sym::ServerChallenge => fsm.next(msg(a::authentication_message::Msg::ServerChallenge(a::Challenge { name: "srv@host".into(), flags: None, challenge: 5, connection_string: "c".into() })), real),
                 Sym::ServerAckRight | Sym::ServerAckWrong | Sym::ServerAckEmpty | Sym::ServerAckTrunc | Sym::ServerAckLong => {
                     let right = fsm.challenge().map(|(_, ours, _)| challenge_digest(peer_cookie, ours));
                     let digest = match (s, right) {
@@ -223,7 +225,7 @@ fn client_sweep(ctx: &EnumCtx, depth: usize, peer_knows_cookie: bool) -> EnumRes
                         (Sym::ServerAckEmpty, _) => vec![],
                         _ => vec![9; 32],
                     };
-                    fsm.next(msg(a::authentication_message::Msg::ServerAck(a::ChallengeAck { digest })), COOKIE)
+                    fsm.next(msg(a::authentication_message::Msg::ServerAck(a::ChallengeAck { digest })), real)
                 }
             };
             let sym_for_model = if *s == Sym::StartChallenge { Sym::Empty } else { *s };
@@ -244,7 +246,7 @@ fn client_sweep(ctx: &EnumCtx, depth: usize, peer_knows_cookie: bool) -> EnumRes
             }
             if let Some((reply, _, _)) = next.challenge() {
                 // the reply sent to the server is the digest of the server's challenge under our cookie
-                if reply != challenge_digest(COOKIE, 5) {
+                if reply != challenge_digest(real, 5) {
                     res.violations.push(("the reply digest is not the digest of the server's challenge".into(), json!({})));
                 }
             }
@@ -266,13 +268,68 @@ fn client_sweep(ctx: &EnumCtx, depth: usize, peer_knows_cookie: bool) -> EnumRes
     res
 }
 
+/// wrong cookies chosen from the ways a digest could fail to depend on the whole cookie: a long cookie whose
+/// last byte / tail beyond 60 bytes differs or is missing, a cookie extended by a NUL, the empty cookie
+const LONG: &str = "0123456789abcdef0123456789abcdef0123456789abcdef0123456789abcdef-tail";
+const LONG_LAST: &str = "0123456789abcdef0123456789abcdef0123456789abcdef0123456789abcdef-taiL";
+const LONG_TAIL: &str = "0123456789abcdef0123456789abcdef0123456789abcdef0123456789abXXXXXXXXX";
+const LONG_CUT: &str = "0123456789abcdef0123456789abcdef0123456789abcdef0123456789ab";
+const FAMILIES: &[(&str, &str, &str)] = &[
+    ("long-last-byte", LONG, LONG_LAST),
+    ("long-tail-after-60", LONG, LONG_TAIL),
+    ("long-cut-at-60", LONG, LONG_CUT),
+    ("short-vs-long", LONG_CUT, LONG),
+    ("nul-extended", COOKIE, "the-cookie\0"),
+    ("empty", COOKIE, ""),
+];
+
+/// the digest itself: over the cookie families above (and every pair of their members) x boundary challenges,
+/// two different cookies never give the same digest, and the digest has the advertised length
+fn digest_sweep(_ctx: &EnumCtx) -> EnumResult {
+    let mut res = EnumResult::default();
+    let mut all: Vec<&str> = vec![COOKIE, "another-cookie"];
+    for (_, a, b) in FAMILIES {
+        all.push(a);
+        all.push(b);
+    }
+    all.sort();
+    all.dedup();
+    for ch in [0u32, 1, 5, 42, 99, 0x7fff_ffff, 0x8000_0000, u32::MAX] {
+        for (i, a) in all.iter().enumerate() {
+            res.evaluations += 1;
+            if challenge_digest(a, ch).len() != 32 {
+                res.violations.push((format!("challenge_digest({a:?}, {ch}) has {} bytes", challenge_digest(a, ch).len()), json!({})));
+            }
+            for b in &all[i + 1..] {
+                res.evaluations += 1;
+                if challenge_digest(a, ch) == challenge_digest(b, ch) {
+                    res.violations.push((format!("cookies {a:?} and {b:?} give the same digest for challenge {ch}: a peer holding one authenticates against the other"), json!({})));
+                }
+            }
+        }
+    }
+    res.exhaustive = true;
+    res.note = format!("{} cookies (pairwise) x 8 challenges", all.len());
+    res
+}
+
 pub fn fsm_units(thorough: bool) -> Vec<Unit> {
     let depth = if thorough { 6 } else { 5 };
     let mut v = Vec::new();
+    let base = (COOKIE, "another-cookie");
     for knows in [true, false] {
-        v.push(Unit::enumerate(format!("fsm/server/knows={knows}"), 8, Arc::new(move |c: &EnumCtx| server_sweep(c, depth, knows, false))));
-        v.push(Unit::enumerate(format!("fsm/server-alive/knows={knows}"), 8, Arc::new(move |c: &EnumCtx| server_sweep(c, depth - 1, knows, true))));
-        v.push(Unit::enumerate(format!("fsm/client/knows={knows}"), 8, Arc::new(move |c: &EnumCtx| client_sweep(c, depth, knows))));
+        v.push(Unit::enumerate(format!("fsm/server/knows={knows}"), 8, Arc::new(move |c: &EnumCtx| server_sweep(c, depth, knows, false, base))));
+        v.push(Unit::enumerate(format!("fsm/server-alive/knows={knows}"), 8, Arc::new(move |c: &EnumCtx| server_sweep(c, depth - 1, knows, true, base))));
+        v.push(Unit::enumerate(format!("fsm/client/knows={knows}"), 8, Arc::new(move |c: &EnumCtx| client_sweep(c, depth, knows, base))));
+    }
+    v.push(Unit::enumerate("digest/cookie-families".to_string(), 1, Arc::new(digest_sweep)));
+    for (name, real, wrong) in FAMILIES {
+        let pair = (*real, *wrong);
+        let d = depth - 1;
+        v.push(Unit::enumerate(format!("fsm/server/wrong-cookie={name}"), 4, Arc::new(move |c: &EnumCtx| server_sweep(c, d, false, false, pair))));
+        v.push(Unit::enumerate(format!("fsm/client/wrong-cookie={name}"), 4, Arc::new(move |c: &EnumCtx| client_sweep(c, d, false, pair))));
+        // the honest peer of a node with such a cookie still gets through
+        v.push(Unit::enumerate(format!("fsm/server/right-cookie={name}"), 4, Arc::new(move |c: &EnumCtx| server_sweep(c, d - 1, true, false, pair))));
     }
     v
 }
